@@ -18,7 +18,10 @@ Env == <<
   [n |-> "M2",  kind |-> "type", ty |-> Obj(<<Prop("n", Ref("M1"), TRUE), Prop("x", LN("1"), FALSE)>>, <<>>)],
   [n |-> "Inf", kind |-> "type", ty |-> Obj(<<Prop("self", Ref("Inf"), FALSE)>>, <<>>)],
   [n |-> "Tu",  kind |-> "type", ty |-> Tup(<<TNumber>>, <<Ref("Tu")>>)],
-  [n |-> "Ln",  kind |-> "type", ty |-> Uni(<<TNull, Obj(<<Prop("v", TNumber, FALSE), Prop("next", Ref("Ln"), FALSE)>>, <<>>)>>)]
+  [n |-> "Ln",  kind |-> "type", ty |-> Uni(<<TNull, Obj(<<Prop("v", TNumber, FALSE), Prop("next", Ref("Ln"), FALSE)>>, <<>>)>>)],
+  \* recursion that only passes through an index signature (nested dictionary), with and without a declared property
+  [n |-> "Di",  kind |-> "type", ty |-> Obj(<<>>, <<Ix(TString, Ref("Di"))>>)],
+  [n |-> "Dj",  kind |-> "type", ty |-> Obj(<<Prop("a", TNumber, TRUE)>>, <<Ix(TString, Uni(<<TNumber, Ref("Dj")>>))>>)]
 >>
 
 Leaves == <<TNull, TBoolean, LB(TRUE), TNumber, LN("1"), LN("2"), TString, LS("a"), LS("b")>>
